@@ -93,7 +93,7 @@ def parseNumber (sd : SD) (p : Bytes) : Except PErr (JVal × Bytes) :=
     if m = 0 ∨ er2 then .error .json else .ok (.f64 bits, p.drop m)
   else .ok (.int v, pe)
 
-def maxNesting : Nat := Gen.JBL_MAX_NESTING_LEVEL
+def maxNesting : Nat := Gen.Json.JBL_MAX_NESTING_LEVEL
 
 def litNull : Bytes := [110, 117, 108, 108]
 def litTrue : Bytes := [116, 114, 117, 101]
